@@ -589,3 +589,119 @@ def serialization_fails_loudly(ctx: Ctx) -> None:
     cfg = ctx.cfg(f)
     sc = [c for c in calls(f) if isinstance(c.func, ast.Attribute) and c.func.attr == "serialize"]
     ctx.floor("serialize() calls in Serializable.__str__", len(sc), 1)
+
+
+def save_sequence(ctx: Ctx, failure: bool = True) -> None:
+    """C05 / C06: what mutate() does on each path, as a decision table over (backup name given, backup name clashes) -> the sequence of
+    effects.  Tokens are derived from the path effects' closed forms: 'load', 'yield', 'encode-check', 'open <target>', 'write <which text>'.
+    With failure=False (C05) the encode check is not demanded and a serializer streamed into the open output counts as writing the edited text."""
+    from ..decide import IGNORE
+    from .tables import Dec, closed, judge as tjudge, sums_of as tsums
+    p = ctx.p
+    f = p.func(MUTATE)
+    sums = tsums(ctx, f)
+    BF, CLASH = "backup_filename", "backup_filename in (input_filename, output_filename)"
+
+    def is_str_sim(v: Optional[ast.AST], sim: str) -> bool:
+        return isinstance(v, ast.Call) and isinstance(v.func, ast.Name) and v.func.id == "str" and len(v.args) == 1 and not v.keywords and isinstance(v.args[0], ast.Name) and v.args[0].id == sim
+
+    decs = []
+    for s_ in sums:
+        toks: List[str] = []
+        sim = enc = None
+        yi: Optional[int] = None
+        texts: Dict[str, str] = {}  # local name -> 'original text' / 'edited text'
+        open_target: Optional[str] = None
+        wvar: Optional[str] = None
+        for i, e in enumerate(s_.effects):
+            v = e.value
+            if e.kind == "raise":
+                ex = v.func if isinstance(v, ast.Call) else v
+                toks.append("raise " + (ast.unparse(ex) if ex is not None else ""))
+            elif e.kind == "yield":
+                yi = i
+                toks.append("yield " + (ast.unparse(v) if v is not None else "None"))
+            elif e.kind == "bind" and isinstance(v, ast.Call) and callee_name(ctx, f, v) == OWDE:
+                if isinstance(e.target, ast.Tuple) and len(e.target.elts) == 2 and all(isinstance(x, ast.Name) for x in e.target.elts):
+                    sim, enc = e.target.elts[0].id, e.target.elts[1].id
+                toks.append("load")
+            elif e.kind == "bind" and isinstance(e.target, ast.Name) and sim is not None and is_str_sim(v, sim):
+                texts[e.target.id] = "original text" if yi is None else "edited text"
+            elif e.kind == "bind" and isinstance(e.target, ast.Name) and isinstance(v, ast.Constant):
+                continue
+            elif e.kind == "with" and isinstance(e.target, ast.Call) and is_open_call(ctx, f, e.target):
+                mode = open_mode(ctx, f, e.target)
+                tgt = ast.unparse(e.target.args[0]) if e.target.args else "?"
+                if mode is None or set(mode) & WRITE_CHARS:
+                    open_target = tgt
+                    wvar = e.value.id if isinstance(e.value, ast.Name) else None
+                    toks.append(f"open {tgt} mode {mode!r}")
+                else:
+                    toks.append(f"open-read {tgt}")
+            elif e.kind == "expr" and isinstance(v, ast.Call) and isinstance(v.func, ast.Attribute):
+                recv, meth = v.func.value, v.func.attr
+                if meth == "write" and isinstance(recv, ast.Name) and recv.id == wvar and len(v.args) == 1 and not v.keywords:
+                    a = v.args[0]
+                    if isinstance(a, ast.Name) and a.id in texts:
+                        toks.append(f"write {texts[a.id]} to {open_target}")
+                    elif sim is not None and is_str_sim(a, sim):
+                        toks.append(f"write str({sim}) computed inside the open block to {open_target}")
+                    else:
+                        toks.append(f"write {ast.unparse(a)} to {open_target}")
+                elif meth == "encode" and ((isinstance(recv, ast.Name) and texts.get(recv.id) == "edited text") or (sim is not None and is_str_sim(recv, sim) and yi is not None)) \
+                        and v.args and isinstance(v.args[0], ast.Name) and v.args[0].id == enc and open_target is None:
+                    if failure:
+                        toks.append("encode-check of the edited text in the detected encoding")
+                elif meth == "serialize" and isinstance(recv, ast.Name) and recv.id == sim and len(v.args) == 1 and isinstance(v.args[0], ast.Name) and v.args[0].id == wvar and wvar is not None:
+                    toks.append(f"write edited text to {open_target}" if not failure and yi is not None else f"stream {sim}.serialize() into the open {open_target}")
+                else:
+                    toks.append("other " + ast.unparse(v))
+            elif e.kind == "expr" and isinstance(v, ast.Call):
+                toks.append("other " + ast.unparse(v))
+            elif e.kind in ("store", "aug", "delete"):
+                toks.append("other " + e.text)
+        decs.append(Dec(dict(s_.plain_assign()), tuple(toks), s_))
+    ctx.floor("paths through mutate()", len(decs), 3)
+    out = "output_filename or input_filename"
+
+    def spec(a):
+        if a[BF] and a[CLASH]:
+            return ("raise ValueError",)
+        if not a[BF] and a[CLASH]:
+            return IGNORE
+        seq = ["load", "yield simfile"]
+        if failure:
+            seq.append("encode-check of the edited text in the detected encoding")
+        if a[BF]:
+            seq += ["open backup_filename mode 'w'", "write original text to backup_filename"]
+        seq += [f"open {out} mode 'w'", f"write edited text to {out}"]
+        return tuple(seq)
+
+    def fix(d: Dec) -> Dec:
+        # the loaded simfile's local name is the repository's choice
+        # 'output_filename or input_filename' decided as a branch: the chosen name stands for the same target
+        of = d.assign.get("output_filename")
+        chosen = {True: "output_filename", False: "input_filename"}.get(of)
+
+        def canon_t(t: str) -> str:
+            if t.startswith("yield ") and "load" in d.outcome and t == "yield " + _sim_name(d):
+                return "yield simfile"
+            if chosen is not None:
+                for pre in ("open ", "write edited text to ", "write original text to "):
+                    if t.startswith(pre) and (t[len(pre):] == chosen or t[len(pre):].startswith(chosen + " mode")):
+                        return pre + out + t[len(pre) + len(chosen):]
+            return t
+
+        return Dec(d.assign, tuple(canon_t(t) for t in d.outcome), d.src)
+
+    def _sim_name(d: Dec) -> str:
+        for e in d.src.effects:
+            if e.kind == "bind" and isinstance(e.target, ast.Tuple) and e.target.elts and isinstance(e.target.elts[0], ast.Name) and isinstance(e.value, ast.Call) and callee_name(ctx, f, e.value) == OWDE:
+                return e.target.elts[0].id
+        return "?"
+
+    decs = [fix(d) for d in decs]
+    what = ("a clashing backup name is refused before anything happens; otherwise: load, hand the simfile to the caller, then " + ("serialize and encode the result completely, " if failure else "") +
+            "write the ORIGINAL text to the backup exactly when a backup name was given, then the EDITED text to the output (or input) file - and nothing else, whatever else holds")
+    tjudge(ctx, "R-ORDER", f, what, decs, [BF, CLASH], spec, dont_care=["output_filename"], feasible=lambda a: not (a[CLASH] and not a[BF]),
+           why="a requested backup that is skipped, a text computed after truncation, or a write under another condition loses data exactly when saving fails")
